@@ -828,7 +828,7 @@ fn mkcounter() -> Item {
 
 // ================================================================== FA: aggregates
 
-const FA_RADIX: u64 = 34;
+const FA_RADIX: u64 = 40;
 pub fn fa_count(k: u32) -> u64 {
     seq_count(FA_RADIX, k)
 }
@@ -839,6 +839,8 @@ enum ATy {
     T3n, // (F,(F,F))
     Rec, // {a,b}
     RecT, // {a:(F,F), b:F}
+    Arr,  // [F, F, F]
+    ArrT, // [(F,F), (F,F)]
 }
 struct ACtx {
     vars: Vec<(String, ATy)>,
@@ -1032,6 +1034,35 @@ fn fa_stmt(c: &mut ACtx, o: u64) -> Option<()> {
             let e = E::Record(vec![("<-".into(), var(&r)), ("b".into(), bin("+", c.f(0)?, num(300.0))), ("a".into(), c.f(2)?)]);
             c.push(v, ATy::Rec, e, "{record <- b = .., a = ..}".into());
         }
+        34 => {
+            let v = c.fresh("a");
+            let e = E::Array(vec![c.f(0)?, c.f(2)?, num(3.0)]);
+            c.push(v, ATy::Arr, e, "array of three floats".into());
+        }
+        35..=37 => {
+            // constant index, index computed from the input (may be fractional or out of range), index beyond the end
+            let a = c.last(ATy::Arr)?;
+            let v = c.fresh("p");
+            let (i, what) = match o {
+                35 => (num(1.0), "array[1]"),
+                36 => (c.f(0)?, "array[a]"),
+                _ => (num(7.0), "array[7] (beyond the end)"),
+            };
+            c.push(v, ATy::F, E::Index(Box::new(var(&a)), Box::new(i)), what.into());
+        }
+        38 => {
+            let v = c.fresh("a");
+            let e = E::Array(vec![E::Tuple(vec![c.f(0)?, num(1.0)]), E::Tuple(vec![num(2.0), c.f(2)?])]);
+            c.push(v, ATy::ArrT, e, "array of two pairs".into());
+        }
+        39 => {
+            let a = c.last(ATy::ArrT)?;
+            let (p, q) = (c.fresh("p"), c.fresh("p"));
+            c.ops.push("let (p, q) = array_of_pairs[1]".into());
+            c.stmts.push(S::Let(Pat::Tuple(vec![Pat::Var(p.clone()), Pat::Var(q.clone())]), E::Index(Box::new(var(&a)), Box::new(num(1.0)))));
+            c.vars.push((p, ATy::F));
+            c.vars.push((q, ATy::F));
+        }
         21..=27 => {
             // default arguments and parameter packs (a trailing field named ".." prints the open form `{q = a, ..}`)
             c.need("defa");
@@ -1071,6 +1102,14 @@ pub fn fa_decode(idx: u64, k: u32) -> Option<Gen> {
         ATy::RecT => (
             E::Tuple(vec![E::Proj(Box::new(E::Field(Box::new(var(&name)), "a".into())), 0), E::Proj(Box::new(E::Field(Box::new(var(&name)), "a".into())), 1), E::Field(Box::new(var(&name)), "b".into())]),
             Shape::T(vec![Shape::F, Shape::F, Shape::F]),
+        ),
+        ATy::Arr => (
+            E::Tuple((0..3).map(|i| E::Index(Box::new(var(&name)), Box::new(num(i as f64)))).collect()),
+            Shape::T(vec![Shape::F, Shape::F, Shape::F]),
+        ),
+        ATy::ArrT => (
+            E::Tuple(vec![E::Proj(Box::new(E::Index(Box::new(var(&name)), Box::new(num(0.0)))), 0), E::Proj(Box::new(E::Index(Box::new(var(&name)), Box::new(num(1.0)))), 1)]),
+            Shape::T(vec![Shape::F, Shape::F]),
         ),
     };
     let mut hs = Sites(0);
@@ -1485,7 +1524,11 @@ pub fn walk(e: &E, f: &mut dyn FnMut(&E)) {
             walk(a, f);
             walk(b, f)
         }
-        E::Math(_, v) | E::Call(_, v, _) | E::Tuple(v) => v.iter().for_each(|a| walk(a, f)),
+        E::Math(_, v) | E::Call(_, v, _) | E::Tuple(v) | E::Array(v) => v.iter().for_each(|a| walk(a, f)),
+        E::Index(a, i) => {
+            walk(a, f);
+            walk(i, f)
+        }
         E::CallE(c, v, _) => {
             walk(c, f);
             v.iter().for_each(|a| walk(a, f))
@@ -1782,6 +1825,8 @@ fn map_atoms(e: &E, counter: &mut u64, target: u64, repl: &E) -> E {
         }
         E::Tuple(v) => E::Tuple(v.iter().map(|x| go(x)).collect()),
         E::Proj(a, i) => E::Proj(Box::new(go(a)), *i),
+        E::Array(v) => E::Array(v.iter().map(|x| go(x)).collect()),
+        E::Index(a, i) => E::Index(Box::new(go(a)), Box::new(go(i))),
         E::Mem(a, s) => E::Mem(Box::new(go(a)), *s),
         E::Delay(n, a, t, s) => {
             let a2 = go(a);
